@@ -662,7 +662,7 @@ func (e *Evaluator) evalBlockStatment(block *parser.BlockStatement) (value, erro
 
 func (e *Evaluator) evalVar(v *parser.Var) (value, error) {
 	if val, ok := e.scope.get(v.Name); ok {
-		verifVar("Get", v.Name, val)
+		verifGet(e.scope, v.Name, val)
 		return val, nil
 	}
 	return nil, newErr(v, fmt.Errorf("%w: %s", ErrVarNotSet, v.Name))
